@@ -91,6 +91,7 @@ type jcase struct {
 	Err     string `json:"err,omitempty"`
 	Mutated string `json:"mutated,omitempty"`
 	History *jhist `json:"history,omitempty"`
+	CfgDiff string `json:"cfg_differs_from_default_by,omitempty"`
 }
 
 // mutate makes a random (usually valid) variation of a record
@@ -236,7 +237,7 @@ func main() {
 			e = err.Error()
 		}
 		emit(fmt.Sprintf("CSet %d %d %d %s %s %s %s", cfg, rs, code, val(v, s), hx.B(err == nil), patchCoq(cfgs[cfg], after), hx.List(gets)),
-			jcase{Kind: "set", Cfg: cfg, Recs: rs, Code: code, Value: v, Str: s, OK: err == nil, Err: e})
+			jcase{Kind: "set", Cfg: cfg, Recs: rs, Code: code, Value: v, Str: s, OK: err == nil, Err: e, CfgDiff: patchCoq(cfgs[0], cfgs[cfg])})
 	}
 	doProp := func(cfg, rs int, code uint32, v uint64, s string) {
 		c := withState(cfg, rs)
@@ -346,6 +347,53 @@ func main() {
 		doProp(0, 0, code, 1, "0.5")
 		doProp(0, 0, code, 0, "moniker,username")
 	}
+	// ---- chains: a second request on the record an accepted first request left behind, with values
+	// related to the stored one (powers of ten, other spellings of the same number, neighbours)
+	cfgIndex := map[string]int{}
+	stateAfter := func(code uint32, v uint64, s string) int {
+		c := withState(0, 0)
+		var err error
+		if p := hx.Try(func() {
+			err = k.SetNetworkProperty(c, govtypes.NetworkProperty(code), govtypes.NetworkPropertyValue{Value: v, StrValue: s})
+		}); p != "" || err != nil {
+			return -1
+		}
+		np := k.GetNetworkProperties(c)
+		key := patchCoq(cfgs[0], np)
+		if i, ok := cfgIndex[key]; ok {
+			return i
+		}
+		cfgs = append(cfgs, np)
+		cfgIndex[key] = len(cfgs) - 1
+		return len(cfgs) - 1
+	}
+	strChain := []string{"1", "10", "100", "0.1", "0.01", "0.10", "1.0", "2", "20", "0.2", "0.02", "0.3", "0.03"}
+	numChain := []uint64{1, 10, 100, 1000, 2, 20, 11}
+	for code := uint32(0); code < 64; code++ {
+		cur, err := k.GetNetworkProperty(base, govtypes.NetworkProperty(code))
+		if err != nil {
+			continue
+		}
+		if cur.StrValue != "" {
+			for _, a := range strChain {
+				if ci := stateAfter(code, 0, a); ci >= 0 {
+					for _, b := range strChain {
+						doSet(ci, 0, code, 0, b)
+					}
+					doProp(ci, 0, code, 0, strChain[r.Intn(len(strChain))])
+				}
+			}
+		} else if r.Chance(35) || *n > 1000 {
+			for _, a := range numChain {
+				if ci := stateAfter(code, a*uint64(1+r.Intn(3)), ""); ci >= 0 {
+					for _, b := range numChain {
+						doSet(ci, 0, code, b, "")
+					}
+				}
+			}
+		}
+	}
+
 	// ---- random cases
 	for i := 0; i < *n; i++ {
 		cfg, rs := r.Intn(len(cfgs)), r.Intn(len(recsets))
